@@ -101,6 +101,8 @@ def run_unit(tpath, repo_root, seed, build_dir=BUILD, tag='', canary=None, expan
     elif not vr.get('success'):
         r['status'] = 'undecided'
         r['reason'] = 'verus reported failure without a mapped diagnostic'
+    # lifted blocks left out of the unit (lost anchors): without a failure elsewhere the unit is undecided
+    r['left_out'] = getattr(ub, 'left_out', None) or []
     # vacuity: every extracted fn must appear in the function breakdown
     if r['status'] in ('ok', 'fail'):
         names = [f['function'] for f in r['functions']]
@@ -352,7 +354,10 @@ def check_property(prop, tier, seed, replay=None):
     for k in kf.get('findings', []):
         if k['property'] == prop and not k.get('obligation'):
             lines.append('KNOWN-FINDING: property=%s %s [not re-evaluated by the verifier: %s; witness: %s]' % (prop, k['what'], k['call_site'], k['witness']))
-    if (undecided or kani_undecided) and not violations:
+    # lifted blocks left out of a unit (anchors lost on restructured code): the rest of the unit was decided; with no violation the
+    # property is undecided, since those blocks could not be checked
+    left_out = [(n, x) for n, r in sorted(results.items()) for x in (r.get('left_out') or [])]
+    if (undecided or kani_undecided or left_out) and not violations:
         rc = 2
     for m, r in violations:
         extra = None
@@ -385,6 +390,8 @@ def check_property(prop, tier, seed, replay=None):
         print(ln)
     for n, r in undecided:
         print('UNDECIDED unit=%s: %s' % (n, r['reason']), file=sys.stderr)
+    for n, x in left_out:
+        print('UNDECIDED unit=%s: lifted block %s left out (%s)' % (n, x['alias'], x['reason']), file=sys.stderr)
     for n, t in kani_undecided:
         print('UNDECIDED kani harness=%s: %s' % (n, t), file=sys.stderr)
     if rc == 0:
